@@ -697,6 +697,9 @@ func execL1(c *simrt.Ctx) {
 // ---- C03: isolation of derived values (bitmap half) ---------------------------
 
 func genC03(r *simrt.Rand, tier string) *simrt.Plan {
+	if m := simrt.Mode("C03", 2); m != nil && r.Bool(0.35) {
+		return m.Gen(r, tier) // fragment level: rows handed out by a real fragment and values derived from them
+	}
 	p := l1Plan(r)
 	p.Knobs["btree"] = int64(simrt.Pick(r, 1, 1, 0))
 	g := newL1Gen(r)
